@@ -135,3 +135,48 @@ mod tests {
         );
     }
 }
+
+/// Formats a date/time with a `strftime`-style format string.
+///
+/// A conversion specification that is not valid is copied to the output as it is written
+/// (as the C library does), instead of failing the whole format.
+///
+/// # Arguments
+///
+/// * `datetime` - The date/time to format.
+/// * `format` - The format string.
+pub fn format_strftime<Tz: chrono::TimeZone>(datetime: &chrono::DateTime<Tz>, format: &str) -> String
+where
+    Tz::Offset: std::fmt::Display,
+{
+    use std::fmt::Write as _;
+
+    let mut result = String::new();
+    let mut rest = format;
+
+    while !rest.is_empty() {
+        // Take either the literal text up to the next '%', or one conversion specification:
+        // the '%' and everything up to and including its first letter (or second '%').
+        let chunk_len = if rest.starts_with('%') {
+            rest.char_indices()
+                .skip(1)
+                .find(|(_, c)| c.is_alphabetic() || *c == '%')
+                .map_or(rest.len(), |(i, c)| i + c.len_utf8())
+        } else {
+            rest.find('%').unwrap_or(rest.len())
+        };
+        let (chunk, tail) = rest.split_at(chunk_len);
+        rest = tail;
+
+        let items: Vec<_> = chrono::format::StrftimeItems::new(chunk).collect();
+        let formatted_len = result.len();
+        if items.contains(&chrono::format::Item::Error)
+            || write!(result, "{}", datetime.format_with_items(items.iter())).is_err()
+        {
+            result.truncate(formatted_len);
+            result.push_str(chunk);
+        }
+    }
+
+    result
+}
